@@ -385,8 +385,25 @@ pub fn apply(ty: Ty, doc: &str, rw: &Rw) -> Option<String> {
                         return None;
                     }
                     let k = rw.arg as usize % attrs.len();
-                    let (_, v, q) = &mut attrs[k];
-                    if *q == '"' {
+                    let (key, v, q) = &mut attrs[k];
+                    if rw.arg % 3 == 2 {
+                        // (namespace declarations are compared as written - documented: the value of
+                        // `Namespace` is the non-normalized attribute value - so they are left alone)
+                        if key.as_str() == "xmlns" || key.starts_with("xmlns:") {
+                            return None;
+                        }
+                        // one character of the value (not a blank, not part of a reference, not NUL)
+                        // becomes a character reference: the same information
+                        let free = free_positions(v);
+                        let cands: Vec<usize> = free.iter().copied().filter(|p| { let ch = v[*p..].chars().next().unwrap(); !ch.is_whitespace() && ch != '\0' }).collect();
+                        if cands.is_empty() {
+                            return None;
+                        }
+                        let p = cands[scale(rw.arg / 3, cands.len())];
+                        let c = v[p..].chars().next().unwrap();
+                        let r = if rw.arg % 2 == 0 { format!("&#{};", c as u32) } else { format!("&#x{:X};", c as u32) };
+                        v.replace_range(p..p + c.len_utf8(), &r);
+                    } else if *q == '"' {
                         *v = v.replace('\'', "&apos;");
                         *q = '\'';
                     } else {
